@@ -30,11 +30,11 @@ def run(tier, seed):
                 r = {"fn": "assemble", "enz": espec, "vector": {"id": "vec", "seq": gen.rotate(c["vector"], rng.randrange(len(c["vector"])))},
                      "modules": list(mods), "id": "p", "name": "p", "twin": {"by": "swap", "pos": pos, "mod": {"id": "new", "seq": new}}}
                 recipes.append(r)
-    try:
+    if not q:      # same-type replacements among real registry plasmids
         from . import registry_asm
-        recipes += registry_asm.swap_recipes(rng, q)
-    except ImportError:
-        run.extra["registry_assemblies"] = "not built yet"
+        rr = registry_asm.swap_recipes(rng, False)[:10]
+        run.extra["registry_swaps"] = len(rr)
+        recipes += rr
     ac.validate(run, "swaps", recipes)
     return run.finish("TLC: in every successful outcome of the graph machine each chain position is determined by overhangs only "
                       "(Interchange); I->S: successful assemblies over all geometries, every (quick: one) chain position replaced by a "
